@@ -39,9 +39,3 @@ Raise ValueError
 )
 )
 ).
-
-(* fragment g_reduce_super from sparse/numba_backend/_sparse_array.py:SparseArray.reduce selector=('else', 'reduce_super_ufunc is None') srchash=d8ba5067a1fa7e68 *)
-Definition g_reduce_super (method : pyv) (reduce_super_ufunc : pyv) (fill : pyv) (data : pyv) (counts : pyv) (n_cols : pyv) : res pyv :=
-data <- (m_ <- py_sub n_cols counts ;; s_ <- (match reduce_super_ufunc, as_int fill, as_int m_ with | VInt 0, Some a_, Some b_ => Ok (VInt (a_ + b_)) | VInt 1, Some a_, Some b_ => Ok (VInt (a_ * b_)) | VInt 9, Some a_, Some b_ => if b_ <? 0 then Raise ValueError else Ok (VInt (a_ ^ b_)) | _, _, _ => Raise TypeError end) ;; (match method, as_int data, as_int s_ with | VInt 0, Some a_, Some b_ => Ok (VInt (a_ + b_)) | VInt 1, Some a_, Some b_ => Ok (VInt (a_ * b_)) | VInt 9, Some a_, Some b_ => if b_ <? 0 then Raise ValueError else Ok (VInt (a_ ^ b_)) | _, _, _ => Raise TypeError end)) ;;
-result_fill_value <- (match reduce_super_ufunc, as_int fill, as_int n_cols with | VInt 0, Some a_, Some b_ => Ok (VInt (a_ + b_)) | VInt 1, Some a_, Some b_ => Ok (VInt (a_ * b_)) | VInt 9, Some a_, Some b_ => if b_ <? 0 then Raise ValueError else Ok (VInt (a_ ^ b_)) | _, _, _ => Raise TypeError end) ;;
-Ok (VTuple [data; result_fill_value]).
